@@ -908,3 +908,8 @@ def prune_cals(keep):
     if 'ummulqura' not in keep:
         out += [r'__ldn_to_ummulqura', r'__ummulqura_to_ldn', r'__ummulqura_fixup']
     return out
+
+
+def treekey(t):
+    """key-safe name of an expression tree"""
+    return re.sub(r'[^A-Za-z0-9]+', '_', t.replace(' ', '')).strip('_')
